@@ -19,6 +19,16 @@ type RE struct {
 	L    *RE    `json:"l,omitempty"`
 	R    *RE    `json:"r,omitempty"`
 	Args []*RE  `json:"args,omitempty"`
+	Toks []*PTok `json:"toks,omitempty"` // op "toks": a token string, read by the parser model of the driver
+	Damaged bool `json:"-"`
+}
+
+// a token of an expression: an atom (constant, variable, element access, call) is one token
+type PTok struct {
+	T    string `json:"t"` // atom ar cmp log not lp rp
+	Sym  string `json:"sym,omitempty"`
+	Line int    `json:"line,omitempty"`
+	E    *RE    `json:"e,omitempty"`
 }
 
 type RKey struct {
@@ -127,6 +137,30 @@ func (w *renderer) expr(e *RE) {
 			w.expr(a)
 		}
 		w.sb.WriteString(" )")
+	case "toks":
+		for k, t := range e.Toks {
+			switch t.T {
+			case "atom":
+				w.expr(t.E)
+				t.Line = t.E.Line
+			case "not":
+				w.tok("!")
+				t.Line = w.line
+			case "lp":
+				w.tok("(")
+				t.Line = w.line
+			case "rp":
+				w.tok(")")
+			default:
+				w.tok(t.Sym)
+			}
+			if k == 0 {
+				e.Line = t.Line
+				if t.T != "atom" && t.T != "not" && t.T != "lp" {
+					e.Line = w.line
+				}
+			}
+		}
 	case "paren":
 		w.tok("(")
 		e.Line = w.line
@@ -573,6 +607,117 @@ func (g *egen) anyExpr(depth int) (*RE, string) {
 		cls := []string{"num", "num", "sint", "uint", "flt"}[g.r.intn(5)]
 		return g.math(depth, cls), cls
 	}
+}
+
+// ---------- token strings (mode parse) ----------
+
+func negLit(e *RE) bool {
+	return e.Op == "lit" && (e.Val.K != "string" && e.Val.K != "bool") && strings.HasPrefix(litText(e.Val), "-")
+}
+
+// loosen changes the bracketing of a canonical tree at random: brackets the tree needs are
+// dropped (the flattened text then reads as another tree), redundant ones are added
+func loosen(r *rng, e *RE) *RE {
+	wrap := func(x *RE) *RE {
+		if r.chance(1, 9) {
+			return &RE{Op: "paren", L: x}
+		}
+		return x
+	}
+	switch e.Op {
+	case "paren":
+		in := loosen(r, e.L)
+		if r.chance(1, 3) && in.Op != "lit" {
+			return in
+		}
+		return &RE{Op: "paren", L: in}
+	case "not":
+		if e.L.Op == "paren" {
+			return &RE{Op: "not", L: &RE{Op: "paren", L: loosen(r, e.L.L)}}
+		}
+		return e
+	case "ar", "cmp", "log":
+		return wrap(&RE{Op: e.Op, Sym: e.Sym, L: loosen(r, e.L), R: loosen(r, e.R)})
+	}
+	return wrap(e)
+}
+
+func flatten(e *RE, out *[]*PTok) {
+	switch e.Op {
+	case "paren":
+		*out = append(*out, &PTok{T: "lp"})
+		flatten(e.L, out)
+		*out = append(*out, &PTok{T: "rp"})
+	case "not":
+		*out = append(*out, &PTok{T: "not"})
+		flatten(e.L, out)
+	case "ar", "cmp", "log":
+		flatten(e.L, out)
+		*out = append(*out, &PTok{T: e.Op, Sym: e.Sym})
+		flatten(e.R, out)
+	default:
+		*out = append(*out, &PTok{T: "atom", E: e})
+	}
+}
+
+// genToks: the tokens of a random expression under a random bracketing; one time in eight the
+// string is damaged (a token dropped, doubled, two swapped, a stray bracket) and is then mostly
+// not an expression any more
+func (g *egen) genToks(depth int) *RE {
+	e, _ := g.anyExpr(depth)
+	var toks []*PTok
+	flatten(loosen(g.r, e), &toks)
+	r := g.r
+	clean := true
+	for _, t := range toks {
+		if t.T == "atom" && negLit(t.E) {
+			clean = false // `a -3` reads as a subtraction: keep such strings as they are
+		}
+	}
+	orig := append([]*PTok{}, toks...)
+	damaged := false
+	if clean && r.chance(1, 8) && len(toks) > 0 {
+		damaged = true
+		k := r.intn(len(toks))
+		switch r.intn(5) {
+		case 0:
+			toks = append(toks[:k:k], toks[k+1:]...)
+		case 1:
+			d := *toks[k]
+			toks = append(toks[:k+1:k+1], append([]*PTok{&d}, toks[k+1:]...)...)
+		case 2:
+			if k+1 < len(toks) {
+				toks[k], toks[k+1] = toks[k+1], toks[k]
+			}
+		case 3:
+			toks = append(toks[:k:k], append([]*PTok{{T: "rp"}}, toks[k:]...)...)
+		default:
+			toks = append(toks[:k:k], append([]*PTok{{T: "lp"}}, toks[k:]...)...)
+		}
+	}
+	for k := 0; k+1 < len(toks); k++ {
+		// a name followed by `(` is a call: another token string at the level of atoms
+		if toks[k].T == "atom" && (toks[k].E.Op == "var" || toks[k].E.Op == "at") && toks[k+1].T == "lp" {
+			toks = orig
+			damaged = false
+			break
+		}
+	}
+	if len(toks) == 0 {
+		toks = []*PTok{{T: "atom", E: lit("int64", "1")}}
+	}
+	// an atom must not occur twice as the same node (the renderer stores its line in it)
+	seen := map[*RE]bool{}
+	for _, t := range toks {
+		if t.T == "atom" {
+			if seen[t.E] {
+				c := *t.E
+				t.E = &c
+			}
+			seen[t.E] = true
+		}
+	}
+	return &RE{Op: "toks", Toks: toks, Damaged: damaged}
 }
 
 var localNames = []string{"x0", "x1", "x2", "x3"}
